@@ -71,6 +71,9 @@ def cases(tier, seed):
                         add(sset, rset, "sonly", True, True, "R")
                         add(sset, rset, "mix", False, False, "R")
                         add(sset, rset, "mix", False, True, "R")
+    # large cases (sizes beyond the small alphabet): many unrestricted variables; many restricted combinations
+    out.append({"id": "large-17-unrestricted-variables", "block": "L", "large": "many_vars", "order": [], "restricted": [], "pfilter": False, "crev": False, "frev": False, "seed": seed})
+    out.append({"id": "large-272-restricted-combinations", "block": "L", "large": "many_combos", "order": [], "restricted": [], "pfilter": False, "crev": False, "frev": False, "seed": seed})
     # histories: models that share every name but differ in the filter body, built in ONE process
     variants = [False, True, "alt"]
     for L_ in (2, 3):
@@ -86,7 +89,47 @@ def cost(case):
     return 2 ** len(case["order"])
 
 
+def build_large(case):
+    from mc import family
+
+    if case["large"] == "many_vars":
+        # 11 unrestricted discrete states (sizes 2/3), wealth; 4 discrete choices, consumption: 17 variables
+        snames = ["z1", "a2", "y3", "b4", "x5", "c6", "w7", "d8", "v9", "e10", "u11"]
+        sizes = [2, 3, 2, 2, 2, 2, 2, 2, 3, 2, 2]
+        cnames = ["q1", "f2", "p3", "g4"]
+        states = [(n, f"D({k})") for n, k in zip(snames, sizes)] + [("wealth", "Lin(1, 5, 3)")]
+        choices = [(n, "D(2)") for n in cnames] + [("cons", "Lin(0.5, 2.0, 3)")]
+        uterms = " + ".join(f"{0.013 * (i + 1):.3f} * {n} * (1 + {0.1 * (i % 3):.1f} * wealth)" for i, n in enumerate(snames))
+        cterms = " + ".join(f"{0.07 * (i + 1):.2f} * {n} * ({snames[i]} + 0.5)" for i, n in enumerate(cnames))
+        L = [f"def utility({', '.join(snames)}, wealth, {', '.join(cnames)}, cons):\n    return jnp.log(cons) + {uterms} + {cterms}",
+             "def next_wealth(wealth, cons):\n    return 0.9 * (wealth - 0.5 * cons) + 0.8",
+             "def c_constraint(cons, wealth):\n    return cons <= wealth + 0.2371"]
+        funcs = ["utility", "next_wealth", "c_constraint"]
+        for n in snames:
+            L.append(f"def next_{n}({n}):\n    return {n}")
+            funcs.append(f"next_{n}")
+    else:
+        # two restricted states with 17 x 16 labels (272 combinations, all with a passing choice) + restricted choice
+        states = [("exper", "D(17)"), ("tenure", "D(16)"), ("wealth", "Lin(1, 5, 4)")]
+        choices = [("work", "D(2)"), ("cons", "Lin(0.5, 2.0, 3)")]
+        L = ["def utility(exper, tenure, wealth, work, cons):\n    return jnp.log(cons) + 0.011 * exper * (1 + work) + 0.007 * tenure * wealth - 0.3 * work + 0.0003 * exper * tenure",
+             "def et_filter(exper, tenure, work):\n    return jnp.logical_or(work == 0, tenure <= exper)",
+             "def next_exper(exper):\n    return exper",
+             "def next_tenure(tenure):\n    return tenure",
+             "def next_wealth(wealth, cons, work):\n    return 0.9 * (wealth - 0.5 * cons) + 0.6 + 0.3 * work",
+             "def c_constraint(cons, wealth):\n    return cons <= wealth + 0.2371"]
+        funcs = ["utility", "et_filter", "next_exper", "next_tenure", "next_wealth", "c_constraint"]
+    prelude = family.PRELUDE.replace('def D(n): return', 'def D(n): return')
+    text = prelude + "\n\n".join(L) + "\n\nMODEL = Model(n_periods=2,\n    functions={%s},\n    choices={%s},\n    states={%s})\n" % (
+        ", ".join(f'"{f}": {f}' for f in funcs), ", ".join(f'"{n}": {g}' for n, g in choices), ", ".join(f'"{n}": {g}' for n, g in states))
+    ns = {}
+    exec(text, ns)
+    return text, ns["MODEL"], {"beta": 0.93, **{f: {} for f in funcs}}
+
+
 def build(case):
+    if case.get("large"):
+        return build_large(case)
     order = case["order"]
     R = case["restricted"]
     L = []
